@@ -125,9 +125,11 @@ func mergeUnrecognizedKeysIssues(leftIssues, rightIssues []core.ZodIssue) []core
 	type side struct{ left, right bool }
 	unrec := make(map[string]*side)
 
+	// Only the keys of the intersected value itself are shared between the two
+	// sides; an unrecognized key of a nested object is an ordinary issue.
 	var leftOther []core.ZodIssue
 	for _, iss := range leftIssues {
-		if iss.Code == core.UnrecognizedKeys {
+		if iss.Code == core.UnrecognizedKeys && len(iss.Path) == 0 {
 			for _, k := range iss.Keys {
 				if unrec[k] == nil {
 					unrec[k] = &side{}
@@ -141,7 +143,7 @@ func mergeUnrecognizedKeysIssues(leftIssues, rightIssues []core.ZodIssue) []core
 
 	var rightOther []core.ZodIssue
 	for _, iss := range rightIssues {
-		if iss.Code == core.UnrecognizedKeys {
+		if iss.Code == core.UnrecognizedKeys && len(iss.Path) == 0 {
 			for _, k := range iss.Keys {
 				if unrec[k] == nil {
 					unrec[k] = &side{}
